@@ -117,9 +117,16 @@ def handleExitDelay : List String → Option String
     let c : Cfg := { engineCfg 1 d with }
     let fuel := 40 * rs.length + 20 * d + 4000 + (rs.foldl (fun a r => max a r.1) 0)
     let s := run c true par fuel 1 none 0 (init [] rs)
-    let model := s!"pr={natList (esortNat s.printed)};ret={b2s (s.main == .returned)};panic={b2s s.panicked}"
     let m := ekvs detail
     let om := ekvs obs
+    -- with a Ctrl-C inside the delay, WHICH of the queued records still get printed depends on the schedule
+    -- (the logger's select may take either branch): the model's deterministic schedule is one possibility,
+    -- so the observed set is echoed there and judged by the Spec (subset, no duplicates) only
+    let raced := match par with
+      | some p => decide (p < d)
+      | none => false
+    let prStr := if raced then (ekv om "pr").getD "?" else natList (esortNat s.printed)
+    let model := s!"pr={prStr};ret={b2s (s.main == .returned)};panic={b2s s.panicked}"
     let v := (do
       let out ← (ekv m "out").bind unhex
       let ids := eparseOut out
